@@ -57,6 +57,7 @@ ASSUMPTIONS = [
     "'kept' = byte-identical content in some regular file below the tree root after the command, wherever it is (contents are unique per edit, so a match is the user's file); 'clean three-way merge' = merge3 package on (text of the file id in the command's base revision, u, text in the incoming revision) without conflict regions",
     "revert(backups=False) and remove(force=True) are explicit requests to discard the selected paths: nothing is demanded for files inside the selection, everything outside must be kept (byte-identical somewhere in the tree: reverting a selected file back into a directory that a merge had renamed takes the directory, and the unselected files in it, along; files renamed by the user are left out)",
     "a command that raises a BzrError has refused: U must then be intact in place; any other exception is a violation of its own",
+    "guard remove_unknown_at_basis_path (reported defect): remove(keep_files=False, force=False) is not run when the selection holds an unknown file whose path the basis still versions (unversioned by a merge or remove --keep, then re-created by the user): the filtered iter_changes does not report it (C10 finding bzr_filter_unversioned_at_removed) and InventoryWorkingTree.remove deletes it; lifted in half of the runs once known_findings.json has an open entry [C12, known-defect, remove_unknown_at_basis_path], or with VERIF_UNGUARDED=1",
     "only 2a trees (the property's mechanisms - numbered backups, merge-hashes, remove's safety - are the bzr ones); no fault injection here: a failing transform is C13's property (open findings there would resurface under this id)",
     "uncommit: every file below the tree root byte-identical and lstat-identical (mode, size, mtime_ns, inode); control files are not compared",
     "runs execute in-process (ISOLATION=thread): each run builds all branches, trees and the Sim from scratch",
@@ -64,6 +65,11 @@ ASSUMPTIONS = [
 STEP_CAP = 600000
 ISOLATION = "thread"
 
+# states that run into defects already reported; see ASSUMPTIONS
+GUARDS = ("remove_unknown_at_basis_path",)
+FIXED_REMOVE_UNKNOWN = True  # /repo c7126b4: the guarded territory is explored in every run now
+P_UNGUARDED = float(os.environ.get("VERIF_UNGUARDED", "0") or 0)
+P_LIFT = 0.5  # the state is rare: lift often once the finding is registered
 NLINES = 6
 CMDS = ["revert", "revert", "revert", "remove", "remove", "merge", "merge", "update", "switch", "pull", "uncommit"]
 FILES = ["a", "b", "c", "d/a", "d/b", "d/e/a", "e"]
@@ -232,7 +238,7 @@ def generate(rng, tier):
     for _ in range(rng.randint(1, 6)):
         counter[0] += 1
         k = counter[0]
-        kind = rng.choice(["edit", "edit", "edit", "new_unknown", "new_added", "rename", "chmod", "collide"])
+        kind = rng.choice(["edit", "edit", "edit", "new_unknown", "new_added", "rename", "chmod", "collide", "recreate"])
         if kind == "edit" and pool:
             user.append(["edit", rng.choice(pool), rng.choice([0, 1, 2, 2, 1, rng.choice([3, 4, 5])]), k])
         elif kind in ("new_unknown", "new_added"):
@@ -242,6 +248,11 @@ def generate(rng, tier):
             adds = [op[1] for op in incoming if op[0] == "add"]
             if adds:
                 user.append(["new", rng.choice(adds), k, rng.random() < 0.3])
+        elif kind == "recreate":
+            # a new (unknown) file where the previous merge deleted a versioned one
+            gone = [op[1] for op in previous["ops"] if op[0] == "delete"] if previous else []
+            if gone:
+                user.append(["new", rng.choice(gone), k, False])
         elif kind == "rename" and pool:
             src = rng.choice(pool)
             user.append(["rename", src, src + "-r"])
@@ -257,7 +268,12 @@ def generate(rng, tier):
         cmd = {"c": "remove", "paths": sorted(rng.sample(sel_pool, min(len(sel_pool), rng.randint(1, 3)))), "keep": keep, "force": (not keep) and rng.random() < 0.35}
     else:
         cmd = {"c": cmd_name}
-    return {"base": base, "incoming": incoming, "previous": previous, "user": user, "cmd": cmd}
+    plan = {"base": base, "incoming": incoming, "previous": previous, "user": user, "cmd": cmd}
+    x = rng.random()
+    unguarded = list(GUARDS) if x < P_UNGUARDED else (M.lifted_guards(PROPERTY, GUARDS) if x < P_LIFT else [])
+    if unguarded:
+        plan["unguarded"] = unguarded
+    return plan
 
 
 def shrink_candidates(plan):
@@ -481,7 +497,20 @@ def execute(sim, plan):
                     basis_path[q] = basis.id2path(ids[q])
                 except Exception:  # noqa: BLE001 - NoSuchId (not a BzrError): not in the basis
                     pass
+        with basis.lock_read():
+            basis_versioned = {q for q in ids if ids[q] is None and basis.is_versioned(q)}
     before = files_of(root, stat=(c == "uncommit"))
+    # guard remove_unknown_at_basis_path: remove without force of an unknown file that sits at a path
+    # the basis still versions (the entry was unversioned by a merge or by remove --keep)
+    risky = set()
+    if c == "remove" and not cmd["keep"] and not cmd["force"]:
+        risky = {q for q in basis_versioned if any(T.inside(s_, q) for s_ in cmd["paths"])}
+    if risky:
+        sim.probe("remove_of_unknown_at_basis_path")  # the defect found here was fixed in /repo c7126b4: always explored
+    if risky and not FIXED_REMOVE_UNKNOWN and "remove_unknown_at_basis_path" not in plan.get("unguarded", ()):
+        sim.probe("guarded_remove_unknown_at_basis_path")
+        sim.event("guarded", "remove_unknown_at_basis_path")
+        return
     plain_before = {q: (v[0] if c == "uncommit" else v) for q, v in before.items()}
     U = {q: d for q, d in plain_before.items() if d not in basis_texts and d not in merge_written}
     sim.event("U", len(U), _h(sorted(U.items())))
@@ -587,6 +616,8 @@ def execute(sim, plan):
                     sim.probe("kept_clean_merge")
                     continue
             kind = "unknown" if ids.get(q) is None else "versioned"
+            if q in risky:
+                sim.fail("content_lost", ["C12", "known-defect", "remove_unknown_at_basis_path"], "[content_lost, in the territory of remove_unknown_at_basis_path] %s deleted the unknown file %r (its path is still versioned in the basis)\nplan: %s" % (json.dumps(cmd), q, json.dumps(plan, sort_keys=True)))
             fail("content_lost", [kind], "%s destroyed the content of %r (%s; not found in any file of the tree afterwards%s)\nfiles before: %r\nfiles after: %r" % (json.dumps(cmd), q, kind, ", nor its clean merge" if c in ("merge", "update", "switch", "pull") else "", sorted(plain_before), sorted(plain_after)))
     sim.state_seen((c, tuple(sorted(cats)), len(U), bool(prev), raised is None))
     sim.nontrivial = bool(len(U) >= 2 and len(cats) >= 2 and (changed or c == "uncommit" or (c == "remove" and cmd.get("keep"))))
